@@ -91,6 +91,8 @@ def gen_cases(rng, tier):
                     cases.append({"tool": tool, "launcher": la, "scenario": "create", "into": into, "verbose": rng.random() < 0.5, "sub": rng.choice(["arc/", "a.b/"])})
                     if tool != "moto_tar":
                         cases.append({"tool": tool, "launcher": la, "scenario": "add", "into": into, "verbose": False, "sub": rng.choice(["", "arc/"])})
+                # extraction under an --into whose parent directory does not exist either
+                cases.append({"tool": tool, "launcher": la, "scenario": "extract", "into": True, "nested": True, "verbose": rng.random() < 0.5, "sub": rng.choice(["", "arc/"])})
                 # create without any source file (a blank archive), and create over something that already lies there
                 cases.append({"tool": tool, "launcher": la, "scenario": "create", "into": False, "verbose": rng.random() < 0.5, "sub": rng.choice(["", "arc/"]), "nsrc": 0})
                 cases.append({"tool": tool, "launcher": la, "scenario": "create", "into": False, "verbose": False, "sub": rng.choice(["", "arc/"]), "nsrc": 0, "old": True})
@@ -268,11 +270,12 @@ def run_case(case, ctx):
             sub = case.get("sub", "")
             rel = sub + "disk" + ext
             vf = ["-v"] if case.get("verbose") else []
-            into = ["--into", "out dir"] if case.get("into") else []
+            INTO = "new/deeper dir" if case.get("nested") else "out dir"   # nested: neither the directory nor its parent exists yet
+            into = ["--into", INTO] if case.get("into") else []
             if sc == "create":
                 os.makedirs(os.path.join(root, sub), exist_ok=True)
                 open(os.path.join(root, "one.bas"), "wb").write(b"\xff\x00\x02\x00\x00")
-                want = [os.path.join("out dir", os.path.basename(rel))] if case.get("into") else [rel]
+                want = [os.path.join(INTO, os.path.basename(rel))] if case.get("into") else [rel]
                 if case.get("old"):
                     # something already lies where the archive goes: create replaces it (the manual: "if the archive file already exists, it is overwritten")
                     os.makedirs(os.path.dirname(os.path.join(root, want[0])), exist_ok=True)
@@ -319,13 +322,13 @@ def run_case(case, ctx):
                     st, out, err = launch(tool, la, ["-r"] + vf + into + [rel, "one.bas"], root)
                     after = snapshot(root)
                     changed = sorted(k for k in set(before) | set(after) if before.get(k) != after.get(k) and not k.endswith("/"))
-                    want = [os.path.join("out dir", os.path.basename(rel))] if case.get("into") else [rel]
+                    want = [os.path.join(INTO, os.path.basename(rel))] if case.get("into") else [rel]
                     if st != 0:
                         bad = {"add failed": [st, err[-300:]]}
                     elif changed != want:
                         bad = {"add wrote": changed, "want": want, "into": bool(case.get("into"))}
                 else:
-                    base = "out dir" if case.get("into") else os.path.dirname(rel)
+                    base = INTO if case.get("into") else os.path.dirname(rel)
                     mst, mfx = model_cli(ctx, tool, ["-x"] + vf + into + [rel], root)
                     st, out, err = launch(tool, la, ["-x"] + vf + into + [rel], root)
                     after = snapshot(root)
@@ -360,7 +363,7 @@ def run_case(case, ctx):
                                 if again.get(os.path.normpath(p_)) != c_:
                                     bad = {"second extraction did not overwrite": os.path.normpath(p_), "len": [len(again.get(os.path.normpath(p_)) or b""), len(c_)]}
                                     break
-        sig = [tool, la, sc] + ([str(case.get("into"))] if "into" in case else []) + (["into:" + case["into_pos"]] if case.get("into_pos") else []) + (["ext:" + case["ext_spelling"]] if case.get("ext_spelling") else []) + (["link"] if case.get("link") else []) + (["no-source"] if case.get("nsrc") == 0 else []) + (["old"] if case.get("old") else [])
+        sig = [tool, la, sc] + ([str(case.get("into"))] if "into" in case else []) + (["into:" + case["into_pos"]] if case.get("into_pos") else []) + (["ext:" + case["ext_spelling"]] if case.get("ext_spelling") else []) + (["link"] if case.get("link") else []) + (["nested-into"] if case.get("nested") else []) + (["no-source"] if case.get("nsrc") == 0 else []) + (["old"] if case.get("old") else [])
         skipped = dis == "unmodelled"
         if skipped:
             dis = None
